@@ -141,8 +141,10 @@ def Marks (pp : PP) (name : Bytes) : Prop :=
 
 /-- the main state against the rest `X` of the stream (after what `skip_rn` still has to eat) -/
 inductive MMain (c : Cfg) (pp : PP) (X : Bytes) : Prop
-  | bnd0 (hs : pp.state = .init) (he : pp.evs = []) (hm : pp.metaOf = none4)
-      (hX : X = sDashDash ++ c.B ++ afterB c.B c.items)
+  | bnd0 (pre : Bytes) (hs : pp.state = .init) (he : pp.evs = []) (hm : pp.metaOf = none4)
+      (hX : X = pre ++ (sDashDash ++ c.B ++ afterB c.B c.items))
+      (hpre : ∀ k, k < pre.length →
+        slice (pre ++ (sDashDash ++ c.B ++ afterB c.B c.items)) k (k + (2 + c.B.length)) ≠ sDashDash ++ c.B)
   | hdr (done : List Item) (it : Item) (rest : List Item) (lines : List Bytes)
       (hsp : c.items = done ++ it :: rest) (hd : Delivers pp.evs (flat done))
       (hs : (pp.state = .processEntryHeaders ∧ lines.foldl hdrM pp.metaOf = it.md) ∨
@@ -228,7 +230,7 @@ theorem Marks.congr {pp pp' : PP} {name : Bytes} (h : Marks pp name) (s : Same p
 
 theorem MMain.congr {c : Cfg} {pp pp' : PP} {X : Bytes} (h : MMain c pp X) (s : Same pp pp') : MMain c pp' X := by
   cases h with
-  | bnd0 hs he hm hX => exact .bnd0 (s.st ▸ hs) (s.evs ▸ he) (s.mt ▸ hm) hX
+  | bnd0 pre hs he hm hX hpre => exact .bnd0 pre (s.st ▸ hs) (s.evs ▸ he) (s.mt ▸ hm) hX hpre
   | hdr done it rest lines hsp hd hs hl hX =>
     exact .hdr done it rest lines hsp (s.evs ▸ hd) (by rw [s.st, s.mt]; exact hs) hl hX
   | chk done it rest hsp hd hs hm hi hX => exact .chk done it rest hsp (s.evs ▸ hd) (s.st ▸ hs) (s.mt ▸ hm) (s.mi ▸ hi) hX
@@ -311,5 +313,13 @@ theorem fresh_drop (B v tl : Bytes) (off k : Nat)
   have := occursIn_false _ _ hocc (off + k) (by simp only [List.length_append, List.length_take, hdl]; omega)
   have e : off + (k + 4 + B.length) = off + k + (4 + B.length) := by omega
   rw [e, ← hdl]; exact this
+
+/-- `d` does not occur at a position inside `v` of `v ++ d ++ tl` -/
+theorem noocc_slice (d v tl : Bytes) (hd : 0 < d.length) (hocc : occursIn d (v ++ d.take (d.length - 1)) = false)
+    (k : Nat) (hk : k < v.length) : slice (v ++ (d ++ tl)) k (k + d.length) ≠ d := by
+  have hsplit : v ++ (d ++ tl) = (v ++ d.take (d.length - 1)) ++ (d.drop (d.length - 1) ++ tl) := by
+    rw [List.append_assoc, ← List.append_assoc (d.take _), List.take_append_drop]
+  rw [hsplit, slice_app _ _ _ _ (by simp only [List.length_append, List.length_take]; omega)]
+  exact occursIn_false _ _ hocc k (by simp only [List.length_append, List.length_take]; omega)
 
 end Mhd.PP
